@@ -3,10 +3,14 @@ import PyttbModel.Spec.Symmetric
 open Lean Pyttb Pyttb.Codec Pyttb.Sym
 namespace Pyttb.Driver
 
-def optGrps15 (j : Json) : R (Option (List (List Nat))) :=
+/-- the group argument: `none`, or rows of integers.  The model's modes are naturals; a negative entry
+is refused here, which is what the argument check `np.any(grps < 0)` of both routines does (adf6713). -/
+def optGrps15 (j : Json) : R (Bool × Option (List (List Nat))) :=
   match fieldOpt j "grps" with
-  | none => .ok none
-  | some v => do let l ← asNatMat v; .ok (some l)
+  | none => .ok (false, none)
+  | some v => do
+    let l ← asIntMat v
+    .ok (l.any (fun g => g.any (· < 0)), some (l.map fun g => g.map Int.toNat))
 
 def testOutJ : TestOut Rat → Json
   | .plain b => Json.mkObj [("b", Json.bool b)]
@@ -21,15 +25,15 @@ def ops15 : List (String × Op) := [
   -- model side ---------------------------------------------------------------
   ("sym_symmetrize", fun j => do
     let T ← field j "T" >>= asDense
-    let g ← optGrps15 j
+    let (neg, g) ← optGrps15 j
     let v ← field j "version" >>= asBool
-    .ok (exceptJ denseJ (Sym.symmetrize T g v))),
+    .ok (if neg then rejectJ else exceptJ denseJ (Sym.symmetrize T g v))),
   ("sym_issymmetric", fun j => do
     let T ← field j "T" >>= asDense
-    let g ← optGrps15 j
+    let (neg, g) ← optGrps15 j
     let v ← field j "version" >>= asBool
     let d ← field j "details" >>= asBool
-    .ok (exceptJ testOutJ (Sym.issymmetric T g v d))),
+    .ok (if neg then rejectJ else exceptJ testOutJ (Sym.issymmetric T g v d))),
   ("sym_ksymmetrize_core", fun j => do
     let Kn ← field j "Kn" >>= asKtensor
     .ok (ktensorJ (ksymmetrizeCore Kn))),
